@@ -32,6 +32,7 @@ func checkReg(c *core.Ctx, srv *run.Server, w *World, rr regRenderer, extra []st
 	if w.Layout != "2006/01/02" {
 		args = append([]string{"--date-format", w.Layout}, args...)
 	}
+	args = respell(c.Rng("spell", len(w.LogText)+len(args)), args)
 	res := srv.App1(args, nil)
 	c.Eval(1)
 	c.Count("runs_"+rr.name, 1)
